@@ -681,6 +681,24 @@ def formatResults (k n : Nat) (rs : List ServerResult) : CheckSummary :=
     countCorrupt := (rs.map (fun r => r.corrupt.eraseDups.length)).sum,
     countIncompatible := (rs.map (fun r => r.incompatible.eraseDups.length)).sum }
 
+/-! ## filenode.py `CiphertextFileNode._gather_repair_results` -/
+
+/-- the keys of `sm`: the pre-repair check's sharemap (`cr.get_sharemap()`, i.e. the verified shares when
+    verify=True) to which every `(shnum, server)` of the upload results' sharemap is added -/
+def postRepairKeys (pre : List ServerResult) (ur : List (Nat × Nat)) : List Nat :=
+  (ur.map (·.1)).foldl (fun ks sh => if sh ∈ ks then ks else ks ++ [sh]) (verifiedKeys pre)
+
+structure PostRepair where
+  healthy : Bool          -- also `crr.repair_successful`
+  recoverable : Bool
+  countGood : Nat
+  deriving DecidableEq, Repr
+
+/-- `is_healthy = len(sm) >= N`, `is_recoverable = len(sm) >= k`, `count_shares_good = len(sm)` -/
+def gatherRepairResults (k n : Nat) (pre : List ServerResult) (ur : List (Nat × Nat)) : PostRepair :=
+  let good := (postRepairKeys pre ur).length
+  { healthy := decide (good ≥ n), recoverable := decide (good ≥ k), countGood := good }
+
 /-! ## abstract storage spec used by repair (refined by the storage server: C22) -/
 
 /-- complete shares a server holds for one storage index -/
